@@ -300,13 +300,23 @@ Record input := mk_input {
   i_parsed : option json       (* None = encoding/json rejects the bytes *)
 }.
 
-(* JSON grammar (trusted with encoding/json): when the bytes parse, the value is an array exactly when the
-   first non-space byte is '[' (isBatch skips any amount of leading white space since 3fe61f6) *)
+(* JSON grammar (trusted with encoding/json): if the first non-space byte is '[' and the bytes parse, the
+   value is an array *)
 Definition grammar_ok (inp : input) : bool :=
   match i_parsed inp with
-  | Some j => Bool.eqb (i_bracket inp) (is_arr j)
+  | Some j => implb (i_bracket inp) (is_arr j)
   | None => true
   end.
+
+(* isBatch looks for the first non-space byte through a 128-byte bufio window (Peek fails beyond it):
+   an array preceded by 128 or more white-space bytes is not recognised as a batch *)
+Definition dev_batch_window (inp : input) : bool :=
+  match i_parsed inp with
+  | Some (JArr _) => negb (i_bracket inp)
+  | _ => false
+  end.
+
+Definition consistent (inp : input) : bool := grammar_ok inp && negb (dev_batch_window inp).
 
 Definition somes {A : Type} (l : list (option A)) : list A :=
   flat_map (fun o => match o with Some x => [x] | None => [] end) l.
@@ -501,7 +511,7 @@ Section Server.
   Definition dev_notif_error (ms : methods) (inp : input) : bool := existsb (dev_notif_error_entry ms) (entries inp).
 
   Definition no_deviation (ms : methods) (inp : input) : bool :=
-    negb (dev_non_object inp) && negb (dev_ill_typed inp)
+    negb (dev_batch_window inp) && negb (dev_non_object inp) && negb (dev_ill_typed inp)
     && negb (dev_null_id ms inp) && negb (dev_notif_error ms inp).
 End Server.
 
